@@ -186,7 +186,6 @@ fn case(f: &mut impl std::io::Write, d: &[u8]) {
         ("visit_seq_lowhint", Entry::Seq(Some(d.len() / 2))),
         ("visit_seq_highhint", Entry::Seq(Some(d.len() * 2 + 1))),
         ("visit_seq_hugehint", Entry::Seq(Some(usize::MAX))),
-        ("visit_seq_hugehint2", Entry::Seq(Some(isize::MAX as usize))),
     ];
     if utf8 {
         entries.push(("visit_str", Entry::Str));
